@@ -78,8 +78,8 @@ def apply_ops(topo, x, ops, strict=False):
         #  - refinement of a topology trimmed with maxrefine=0 (mosaic references cannot be refined)
         if name in ('boundary', 'interfaces', 'boundary-group') and 'take' in done and not strict:
             continue
-        if name in ('refine', 'refined_by') and any(a[0] == 'trim' and a[3] == 0 for a in applied) and not strict:
-            continue
+        if name in ('refine', 'refined_by') and not strict and any(a[0] == 'trim' and sum(1 for q in applied[k + 1:] if q[0] in ('refine', 'refined_by')) >= a[3] for k, a in enumerate(applied)):
+            continue      # a trimmed topology can be refined maxrefine times only (open finding C10-refine-after-trim-maxrefine0)
         #  - trimming a hierarchical topology / hierarchical refinement of a trimmed one (open findings C10-boundary-of-trimmed-hierarchical,
         #    C10-refined-by-cut-element: the boundary of the result is unavailable or not closed)
         if ((name == 'trim' and 'refined_by' in done) or (name == 'refined_by' and 'trim' in done)) and not strict:
